@@ -76,4 +76,14 @@ var specs = map[string]*propSpec{
 		Faults: "cache eviction at any quiescent point, dropped Add, interleaving of concurrent requests inside Cache.Get/Add, mismatching and malformed client input",
 		Assume: []string{"porcupine Unknown (30 s timeout) would be reported as infrastructure trouble, never as a violation"},
 	},
+	"C12": {
+		ID: "C12", Scenario: "streamsim", Race: true, Level: "exploration", Cpu: 4, Mutex: true,
+		Quick:    tierSpec{Runs: 12000, Budget: 75 * time.Second, Variants: []string{"v0"}},
+		Thorough: tierSpec{Runs: 600000, Budget: 15 * time.Minute, Variants: []string{"v0", "v1", "v3"}},
+		Real:     []string{"graphql/handler/transport SSE and MultipartMixed (with sync.Mutex rewritten to a durable channel mutex in the scratch copy)", "graphql/handler.Server", "graphql/executor", "generated executor incl. @defer machinery", "time.Ticker / timers on synctest's fake clock"},
+		Stubbed:  []string{"http.ResponseWriter+Flusher (simhttp.Writer: every Write parks, may be split at a seeded byte, may fail)", "request context (client disconnect)", "subscription source channel (harness emits)", "resolvers (universal resolver, parked)", "net/http server loop (ServeHTTP is called directly)"},
+		Rule: "one run = one streamed response: SSE (subscription with 0-6 emissions, query, @defer query, or a gate error) with KeepAlivePingInterval in {0, 2us, 1ms, 10s}, or multipart/mixed (@defer corpus) with DeliveryTimeout in {1, 5, 50 ms}; the scheduler interleaves resolver releases, emissions, clock advances from a menu around the interval (I-1us, I, I+1us, I/2, 2I, 1us), write completions (each Write may be split at a seeded byte and parked half-way) and, in a quarter of the runs, a client disconnect. Oracle: no Write enters while another is in progress; strict SSE parse / mime/multipart parse with valid JSON in every event/part; payloads equal, exactly once and in order, those recorded by an innermost response interceptor; exactly one complete event / closing delimiter, last; after a disconnect only prefix properties. non-trivial = at least one payload was produced; distinct = hash of (transport, interval, operation, emissions, event log)",
+		Faults: "slow client (split+parked writes), client disconnect (write failure + context cancellation) at a seeded point, keep-alive and flush ticks landing before/at/after payload production",
+		Assume: []string{"pings written after the handler returned are not judged (outside the statement)", "Flush itself is instantaneous"},
+	},
 }
